@@ -30,11 +30,16 @@ def sig_matches(entry_sig, sig):
 
 
 def _all_parts(mod, prop, tier):
-    """the property's own parts plus the shared default-arguments part (mc/props/defaults.py), if the table has rows for it"""
+    """the property's own parts plus the shared default-arguments part (mc/props/defaults.py) and reporting-modes part (mc/props/reports.py),
+    where their tables have rows for it"""
     parts = list(mod.parts(tier))
     from mc.props import defaults
     if any(r[0] == prop for r in defaults.table()):
         parts.append(defaults.part(prop))
+    from mc.props import reports
+    rp = reports.part(prop)
+    if rp is not None:
+        parts.append(rp)
     return parts
 
 
